@@ -92,7 +92,7 @@ def correspond(ctx):
 
 
 ORACLE_KEYS = ("transport-balance", "transport-removes-n", "instability-flag", "n-balance-loss", "n-balance-gain",
-               "deposition", "irrigation-n", "irrigation-file-n", "irrigation-not-in-file", "negative-dissolution", "mineral-n-below-profile",
+               "deposition", "n-counter-not-carried", "irrigation-n", "irrigation-file-n", "irrigation-not-in-file", "negative-dissolution", "mineral-n-below-profile",
                "denit-removes-more-than-counted", "denit-balance")
 
 
@@ -106,6 +106,6 @@ def oracle(ctx, search):
         fails.append(Fail(key="trace-crash", what="traced run aborted", stderr=terr[-800:]))
     for l in orc + torc:
         if l.startswith(ORACLE_KEYS):
-            fails.append(Fail(key=re.sub(r"(residual|delta|expected|before|after|counted|min-preclamp|zeit|water|file-mm|delta-minus-deposition|file-n|ums-before|ums-after|dsumm|value|cell)=\S+", "", l)[:100].strip(), what=l))
+            fails.append(Fail(key=re.sub(r"(residual|delta|expected|before|after|counted|min-preclamp|zeit|water|file-mm|delta-minus-deposition|file-n|value|end-of-yesterday|ums-before|ums-after|dsumm|value|cell)=\S+", "", l)[:100].strip(), what=l))
     fails += daynlib.oracle_day(ctx, daynlib.C02_KEYS if ctx.id == "C02" else daynlib.C07_KEYS) or []
     return fails
